@@ -49,6 +49,10 @@ CLAIMS = {
    technique="static wrapper-protocol check (single LoadOrStore, operate on its result, method table, nothing held while blocking) + the C04 map protocol rules",
    text="Every locking method is shown, on all paths, to perform exactly one LoadOrStore(key, fresh mutex) on the key map, to operate on that call's first result with exactly the matching sync.(RW)Mutex operation (Try* returning its result), with nothing else held or done around it; ClearKey = Delete(key). With the contracts of sync.Mutex/RWMutex and the atomicity of Map.LoadOrStore (map/* rules) this is per-key mutual exclusion and cross-key independence.",
    note="Fairness and ClearKey under contention are outside the property. Map.LoadOrStore's atomicity is covered by necessary protocol conditions, not a linearizability proof."),
+ "C08": dict(cat="other", sec="4 C08",
+   technique="static address-arithmetic analysis: polynomial normal forms of every index/span on the backing slice, bounds from path guards/loop headers/call-site obligations (go/ssa path summaries)",
+   text="Every index and span applied to Array2D's backing slice is split as Q1*width + Q0 and shown, on every path reaching it, to satisfy 0<=Q1<height and 0<=Q0<width (spans: ordered, within one row), with bounds taken from the path's own guards, loop headers and, for helpers and internally called methods, obligations at each call site. By the stated lemma this is exactly injectivity of the cell mapping for every shape; constructors, Fill's rectangle and Clone's detachment are decided as tables.",
+   note="Not decided: String formatting; copy's truncation semantics (language). The arithmetic lemma (x + y*W bijective on [0,W)x[0,H)) is stated, not machine-checked."),
 }
 
 checks, na = [], []
